@@ -82,7 +82,14 @@ fn total_tree(rng: &mut Rng, case: u64, ev: &mut Ev) -> Option<(AffTree<2>, Vec<
                 3 => schema::partial_hard_tanh(out_dim, row, -1.0, 1.0),
                 _ => schema::partial_hard_shrink(out_dim, row, 1.0),
             };
-            hist.push("compose::<false>(schema)".into());
+            let mut g = g;
+            if rng.chance(0.35) {
+                // the argument was itself pruned before: its nodes carry cached feasible states
+                g.infeasible_elimination();
+                hist.push("compose::<false>(schema tree that went through infeasible_elimination)".into());
+            } else {
+                hist.push("compose::<false>(schema)".into());
+            }
             lib(case, "compose (history)", || t.compose::<false, false>(&g))
         } else if r < 8 {
             let od = 1 + rng.below(3);
